@@ -565,12 +565,19 @@ func runCaseOn(c *fw.Ctx, canary *oracle.Canary, cs *Case, dial func(id string) 
 	caseSeq++
 	S := oracle.Stream(streamDomain, cfg.StreamID, cfg.StreamLen)
 	canary.Reset()
-	client, id := dial(fmt.Sprintf("c01-%d-%d-%d", c.Shard, cfg.Index, caseSeq))
+	// (track before the connection is offered: a handler of a matcher-less first route runs at once)
+	name := fmt.Sprintf("c01-%d-%d-%d", c.Shard, cfg.Index, caseSeq)
+	rec := hmods.Track(name)
+	client, id := dial(name)
 	if client == nil {
+		rec.Release()
 		c.Inconclusive("dial failed")
 		return
 	}
-	rec := hmods.Track(id)
+	if id != name {
+		rec.Release()
+		rec = hmods.Track(id) // real sockets: the id is the 4-tuple, known only now (earlier events are adopted)
+	}
 	defer rec.Release()
 	_ = client.SetReadDeadline(time.Now().Add(25 * time.Second))
 
